@@ -26,7 +26,7 @@ theorem imm_both {env : Env} {η : Hp} {file : AFile} {G : List String} (P : Pro
     {ρ : Sem.Env} {gρ : GEnv} {i : Imm}
     (hi : immOK env file G Γ i = true) (hr : EnvRel env η Γ ρ gρ) (hfr : FnRel file G η gρ) :
     ∃ v gv, (∀ n w, Sem.eval (n + 1) P ρ w i.toExpr = .ok v w) ∧
-      (∀ gw, EvS F gρ gw (compileImm env i) (.ok gv gw)) ∧ toGV env η v = some gv ∧ HasTy env η v i.ty := by
+      (∀ gw, EvS F gρ gw (compileImm env i) (.ok gv gw)) ∧ VRel env η v i.ty gv ∧ HasTy env η v i.ty := by
   cases i with
   | var x ty =>
     simp only [immOK] at hi
@@ -49,7 +49,7 @@ theorem imm_both {env : Env} {η : Hp} {file : AFile} {G : List String} (P : Pro
         simp only at hps hr'; subst hps; subst hr'
         have hmem : (n, ps', r') ∈ η.fns := by rw [hfr.eq]; exact List.mem_of_find?_eq_some hf
         have hsrc : Sem.lookupEnv ρ n = none := hr.2 n hl
-        refine ⟨.fn n, .func (vn n), fun k w => ?_, fun gw => ev_var_none (hfr.free _ hmem), by simp [toGV], ?_⟩
+        refine ⟨.fn n, .func (vn n), fun k w => ?_, fun gw => ev_var_none (hfr.free _ hmem), by simp [VRel], ?_⟩
         · simp only [Imm.toExpr]; rw [Sem.eval]; simp only [hsrc]
         · simp only [HasTy, Imm.ty, hfr.eq]; exact hf
     | some t =>
@@ -64,20 +64,20 @@ theorem imm_both {env : Env} {η : Hp} {file : AFile} {G : List String} (P : Pro
     | unit =>
       cases ty <;> simp [okPrim] at hi
       exact ⟨.unit, .unit, fun n w => by simp only [Imm.toExpr]; rw [Sem.eval]; rfl,
-        fun gw => by simp only [compileImm, lit]; exact ev_unitv, rfl, trivial⟩
+        fun gw => by simp only [compileImm, lit]; exact ev_unitv, by simp [VRel], trivial⟩
     | bool b =>
       cases ty <;> simp [okPrim] at hi
       exact ⟨.bool b, .bool b, fun n w => by simp only [Imm.toExpr]; rw [Sem.eval]; rfl,
-        fun gw => by simp only [compileImm, lit]; exact ev_bool, rfl, trivial⟩
+        fun gw => by simp only [compileImm, lit]; exact ev_bool, by simp [VRel], trivial⟩
     | str s =>
       cases ty <;> simp [okPrim] at hi
       exact ⟨.str s, .str s, fun n w => by simp only [Imm.toExpr]; rw [Sem.eval]; rfl,
-        fun gw => by simp only [compileImm, lit]; exact ev_str, rfl, trivial⟩
+        fun gw => by simp only [compileImm, lit]; exact ev_str, by simp [VRel], trivial⟩
     | int b s v =>
       cases ty <;> simp [okPrim] at hi
       obtain ⟨⟨hb, hs⟩, hw⟩ := hi
       subst hb; subst hs
-      refine ⟨.int b s v, .int b s v, fun n w => by simp only [Imm.toExpr]; rw [Sem.eval]; rfl, fun gw => ?_, rfl, ⟨rfl, rfl⟩⟩
+      refine ⟨.int b s v, .int b s v, fun n w => by simp only [Imm.toExpr]; rw [Sem.eval]; rfl, fun gw => ?_, by simp [VRel], ⟨rfl, rfl⟩⟩
       simp only [compileImm, lit, goTy_int]
       have := ev_int (F := F) (ρ := gρ) (w := gw) (b := b) (s := s) (toString_toInt v)
       rw [hw] at this; exact this
@@ -99,7 +99,8 @@ theorem imm_both {env : Env} {η : Hp} {file : AFile} {G : List String} (P : Pro
         have hs := slit_variant ht hn hd hvar (gvs := []) rfl
         simp only [List.length_nil, fieldNames, List.zip_nil_left] at hs
         rw [hs] at this; exact this
-      · simp [toGV, toGVs, hd, hvar, fieldNames]
+      · simp [VRel, hd, hvar, Imm.ty]
+        exact ⟨[], by simp [VRels], by simp [fieldNames]⟩
       · simp only [HasTy, hd, hvar, Imm.ty]
         exact ⟨trivial, hn, trivial⟩
 
@@ -114,7 +115,7 @@ theorem sem_imm_any {P : Prog} {ρ : Sem.Env} {w : World} {e : Expr} {v : Val}
 /-- argument lists: related and typed position by position -/
 def ArgsRel (env : Env) (η : Hp) : List Val → List GVal → List Ty → Prop
   | [], [], [] => True
-  | v :: vs, g :: gs, t :: ts => toGV env η v = some g ∧ HasTy env η v t ∧ ArgsRel env η vs gs ts
+  | v :: vs, g :: gs, t :: ts => VRel env η v t g ∧ HasTy env η v t ∧ ArgsRel env η vs gs ts
   | _, _, _ => False
 
 theorem imms_both {env : Env} {η : Hp} {file : AFile} {G : List String} (P : Prog) {F : GFile} (ht : TyLink env F) {Γ : Ctx}
@@ -143,7 +144,7 @@ theorem imms_both {env : Env} {η : Hp} {file : AFile} {G : List String} (P : Pr
       obtain ⟨v, gv, hs, hg, hrel, hty⟩ := imm_both P ht ha hr hfr
       obtain ⟨vs, gvs, hrs, hgs, hss⟩ := ih has
       have ht := scalarEq_eq hta
-      refine ⟨v :: vs, gv :: gvs, ⟨hrel, ht ▸ hty, hrs⟩, fun gw => ?_, fun n w => ?_⟩
+      refine ⟨v :: vs, gv :: gvs, ⟨ht ▸ hrel, ht ▸ hty, hrs⟩, fun gw => ?_, fun n w => ?_⟩
       · simp only [compileImms, List.map_cons]; exact evl_cons (hg gw) (hgs gw)
       · cases n with
         | zero => left; rw [Sem.evalList.eq_def]
